@@ -573,7 +573,14 @@ func decodeRPM(b []byte) (*pkgObs, error) {
 		{"Recommends", rpmRecommendName, rpmRecommendVersion, rpmRecommendFlags}, {"Suggests", rpmSuggestName, rpmSuggestVersion, rpmSuggestFlags}} {
 		names, vers, flags := hdr.strs(r.tn), hdr.strs(r.tv), hdr.ints(r.tf)
 		for i := range names {
-			o.Meta = append(o.Meta, kv{r.n, relString(names, vers, flags, i)})
+			v, f := "", int64(0)
+			if i < len(vers) {
+				v = vers[i]
+			}
+			if i < len(flags) {
+				f = flags[i]
+			}
+			o.Meta = append(o.Meta, kv{r.n, fmt.Sprintf("%s|%d|%s", names[i], f, v)})
 		}
 	}
 	ct, cn, cx := hdr.ints(rpmChangelogTime), hdr.strs(rpmChangelogName), hdr.strs(rpmChangelogText)
